@@ -159,6 +159,9 @@ def run_history(ctx, init, ops):
                 names_ref.append(i[2])
         its = [p.name for p in style]
         idx = [style.item(j) for j in range(style.length)]
+        neg = [style.item(j) for j in range(-style.length, 0)]
+        if neg != idx:
+            ctx.violation('enumeration', case, 'op %d: item(-length..-1) = %r, item(0..length-1) = %r' % (k, neg, idx))
         if not (keys == names_ref == its == idx and style.length == len(names_ref) and style.item(style.length) == ''
                 and all((n in style) == (norm(n) in names_ref) for n in NAMES)):
             ctx.violation('enumeration', case, 'op %d: keys %r, iteration %r, item %r, length %r, reference %r' % (
